@@ -28,6 +28,7 @@ def configs(tier):
         con(spec('sequence', 'rleja', 2, 1, 44), 0, 1, 1, 4, pre=12); con(spec('sequence', 'rleja', 2, 1, 44), 1, 2, 1, 4, pre=12)   # >= 1000 loaded points: finished samples are parked in the side storage until a refresh or 20% growth
         lnv(spec('localp', 'localp', 2, 1, 2, order=1), 3); lnv(spec('sequence', 'rleja', 2, 1, 3), 4, 2); lnv(spec('global', 'clenshaw-curtis', 2, 2, 2), 2); lnv(spec('sequence', 'leja', 2, 1, 2), 0)
     else:
+        for par, jobs in ((0, 1), (1, 2), (1, 3)): con(spec('sequence', 'rleja', 2, 1, 44), par, jobs, 1, 4, pre=12)   # >= 1000 loaded points
         for ops in ('nncn', 'ncrn', 'nrnc', 'nnnc', 'ncnc', 'rnnc', 'nccr', 'nRnc', 'nnRc', 'ncRn', 'nRcR', 'nRRn'):
             man(1, 3, 2, ops, 400); man(2, 3, 1, ops, 300); man(2, 2, 3, ops, 300)
         for sp in (spec('sequence', 'rleja', 2, 1, 1), spec('sequence', 'leja', 2, 2, 1), spec('global', 'clenshaw-curtis', 2, 1, 1), spec('global', 'leja', 2, 1, 1), spec('localp', 'localp', 2, 1, 1, order=1), spec('localp', 'semi-localp', 2, 1, 1, order=2),
